@@ -34,6 +34,8 @@ Fault gen_file_fault(Rng &r, const FontImage &fi);
 Fault gen_code_fault(Rng &r, const FontImage &fi);
 Fault gen_loop_fault(Rng &r, const FontImage &fi);
 Fault gen_pseudo_fault(Rng &r, const FontImage &fi);
+Fault gen_gid_fault(Rng &r, const FontImage &fi, const std::vector<u32> &cps);
+extern int g_pseudo_bias;
 void gen_faults(Rng &r, const FontImage &fi, int source, std::vector<Fault> &out, int maxn = 4);
 std::vector<u32> sample_cps(Rng &r, const std::string &font, size_t n);
 
